@@ -76,11 +76,31 @@ def extract_extra() -> None:
                         consts[tg.id] = st.value.value
     metas, prefixes = set(), set()
     # every response the class builds (in `handle` or in a private helper it was split into)
+    # response factories: a module-level function or a method whose result is `GeminiResponse(..., meta=<its parameter>, ...)`
+    factories: dict[str, tuple[int, str]] = {}
+    for fn in [x for x in tree.body if isinstance(x, ast.FunctionDef)] + [x for x in cls.body if isinstance(x, ast.FunctionDef)]:
+        params = [a.arg for a in fn.args.args if a.arg not in ("self", "cls")]
+        for r in ast.walk(fn):
+            if isinstance(r, ast.Return) and isinstance(r.value, ast.Call) and getattr(r.value.func, "id", "") == "GeminiResponse":
+                for kw in r.value.keywords:
+                    if kw.arg == "meta" and isinstance(kw.value, ast.Name) and kw.value.id in params:
+                        factories[fn.name] = (params.index(kw.value.id), kw.value.id)
+
+    def meta_args(n):
+        name = getattr(n.func, "id", None) or (n.func.attr if isinstance(n.func, ast.Attribute) and getattr(n.func.value, "id", "") in ("self", "cls") else None)
+        if name == "GeminiResponse":
+            return [kw.value for kw in n.keywords if kw.arg == "meta"]
+        if name in factories:
+            i, pname = factories[name]
+            return [kw.value for kw in n.keywords if kw.arg == pname] or ([n.args[i]] if i < len(n.args) else [])
+        return []
+
     for n in ast.walk(cls):
-        if isinstance(n, ast.Call) and getattr(n.func, "id", "") == "GeminiResponse":
-            for kw in n.keywords:
-                if kw.arg != "meta":
-                    continue
+        if isinstance(n, ast.Call):
+            for value in meta_args(n):
+                kw = ast.keyword(arg="meta", value=value)
+                if isinstance(value, ast.Name) and value.id in factories.get(getattr(n.func, "id", ""), (0, ""))[1:]:
+                    continue            # the factory's own pass-through of its parameter
                 if isinstance(kw.value, ast.Name) and kw.value.id in consts:
                     metas.add(consts[kw.value.id])
                 elif isinstance(kw.value, ast.Attribute) and kw.value.attr in consts:
